@@ -412,3 +412,30 @@ func ErrorsFirst() {
 		try(func() { _, _ = m.b2p(0x002100); _, _ = m.p2b(0xF00000); _, _ = m.b2p(0xFFFFFFFF) })
 	}
 }
+
+// newROMAnyWay makes a ROM the way sel says: through NewROM, or as a caller who fills in the exported
+// fields does (a struct literal, new+assignment, a fresh value assembled from another ROM's fields).
+// A ROM is an open struct; NewROM is a convenience, not the only door.
+func newROMAnyWay(sel int, name string, img []byte) (*snes.ROM, error) {
+	if len(img) < 0x8000 {
+		return snes.NewROM(name, img)
+	}
+	switch sel % 4 {
+	case 1:
+		r := &snes.ROM{Name: name, Contents: img, HeaderOffset: 0x7FB0}
+		return r, r.ReadHeader()
+	case 2:
+		r := new(snes.ROM)
+		r.Contents = img
+		r.Name = name
+		r.HeaderOffset = 0x7FB0
+		return r, r.ReadHeader()
+	case 3:
+		a, err := snes.NewROM(name, img)
+		if err != nil {
+			return a, err
+		}
+		return &snes.ROM{Name: a.Name, Contents: a.Contents, HeaderOffset: a.HeaderOffset, Header: a.Header}, nil
+	}
+	return snes.NewROM(name, img)
+}
